@@ -23,6 +23,16 @@ cfg = {
             mixed = even-indexed agents terminated, odd-indexed truncated,
   "leave":  [k_a ...]          agent a leaves at step k_a (flagged done there, absent from every
                                dict afterwards) when 0 < k_a < episode length; 0 = stays,
+  "leaves": [[k_a ...], ...]   optional: per-episode leave vectors, cycled by episode like lens (episode p uses
+                               leaves[(p-1) % len]) — the ORDER in which the agents finish differs between
+                               episodes; absent / empty = "leave" applies to every episode,
+  "agents_attr": "prune" | "fixed" | "keep-last"
+                               what the environment does with its `agents` attribute (the flags in the returned
+                               dicts are the same under all three): "prune" (default) = only the agents that are
+                               not done, so the list is empty when the episode is over; "fixed" = the full team
+                               from reset() to reset(), the end of an episode is signalled through the
+                               termination / truncation flags only; "keep-last" = early leavers are removed, the
+                               agents finishing on the last step stay listed until reset(),
   "obs":    [ {"kind": "vector"|"image"|"dict"|"tuple", "parts": [[key, shape, dtype], ...]} per agent ],
   "act":    [0 | k | -1 ...]   per agent: 0 = Discrete(5), k > 0 = Box(-1, 1, (k,), float32),
                                -1 = Box(-1, 1, (), float32) (a scalar continuous action),
@@ -45,6 +55,7 @@ from gymnasium import spaces
 from pettingzoo import ParallelEnv
 
 KINDS = ("term", "trunc", "mixed", "both")
+AGENTS_ATTR = ("prune", "fixed", "keep-last")
 N_DISCRETE = 5
 
 
@@ -141,6 +152,10 @@ class ScriptedParallelEnv(ParallelEnv):
         self.lens = [max(1, int(x)) for x in cfg["lens"]]
         self.kinds = list(cfg["kinds"])
         self.leave = [int(x) for x in cfg.get("leave", [0] * len(self.possible_agents))]
+        self.leaves = [[int(x) for x in v] for v in (cfg.get("leaves") or [])]
+        self.agents_attr = cfg.get("agents_attr", "prune")
+        if self.agents_attr not in AGENTS_ATTR:
+            raise ValueError(self.agents_attr)
         self.rev = bool(cfg.get("rev_dicts", False))
         self.layout = cfg.get("layout", "c")
         self.delay = float(cfg.get("delay_ms", 0) or 0) / 1000.0
@@ -169,8 +184,15 @@ class ScriptedParallelEnv(ParallelEnv):
     def ep_kind(self) -> str:
         return self.kinds[(self.episode - 1) % len(self.kinds)]
 
+    def leave_of(self, a: int) -> int:
+        """the step at which agent a leaves the current episode (0 = stays)"""
+        if not self.leaves:
+            return self.leave[a]
+        v = self.leaves[(self.episode - 1) % len(self.leaves)]
+        return v[a] if a < len(v) else 0
+
     def present(self, a: int, t: int) -> bool:
-        k = self.leave[a]
+        k = self.leave_of(a)
         return not (0 < k < self.ep_len() and t > k)
 
     def make_obs(self, a: int):
@@ -216,15 +238,18 @@ class ScriptedParallelEnv(ParallelEnv):
             info[ag] = {"prov": self.prov(a), "acode": code}
         for a, ag in (reversed(order) if self.rev else order):
             rew[ag] = codes[ag] + 100.0 * t + 10000.0 * a + 100000.0 * self.env_id
-            leaving = 0 < self.leave[a] < L and t == self.leave[a]
+            leaving = 0 < self.leave_of(a) < L and t == self.leave_of(a)
             tr = flag_pair(kind, a) if (t >= L or leaving) else (False, False)
             trunc[ag] = tr[1]
         for a, ag in order:
-            leaving = 0 < self.leave[a] < L and t == self.leave[a]
+            leaving = 0 < self.leave_of(a) < L and t == self.leave_of(a)
             term[ag] = flag_pair(kind, a)[0] if (t >= L or leaving) else False
         self.log.append((self.episode, t, dict(codes)))
-        self.agents = [ag for a, ag in order
-                       if not (term[ag] or trunc[ag])]
+        if self.agents_attr == "prune":
+            self.agents = [ag for a, ag in order if not (term[ag] or trunc[ag])]
+        elif self.agents_attr == "keep-last":
+            self.agents = [ag for a, ag in order if t >= L or not (term[ag] or trunc[ag])]
+        # "fixed": the team listed by reset() stays listed until the next reset()
         return obs, rew, term, trunc, info
 
     def get_log(self):
